@@ -17,21 +17,32 @@ Words(v, rem) == {W(x) : x \in {0, 1, 2, 3, 4, 5, 6, 7, 8, 9, 10, 11, 12, 13, 15
 PutW(m, off, w) == [i \in 1..Len(m) |-> IF i > off /\ i <= off + 4 THEN w[i - off] ELSE m[i]]
 Put8(m, off, v) == [i \in 1..Len(m) |-> IF i = off + 1 THEN v ELSE m[i]]
 Bytes8 == {0, 1, 4, 5, 6, 8, 17, 58, 69, 96, 129, 134, 221, 255}
+(* structural mutation: the sampled packet of a raw-header record cut at every length (the sampler's snap length),
+   re-encoded consistently (header length, XDR padding, record and sample lengths) *)
+CutPackets == <<Pkt(1, 0, FALSE, "tcp", Extra(0)), Pkt(1, 100, FALSE, "udp", Extra(1)), Pkt(1, 4095, TRUE, "tcp", Extra(2)),
+                Pkt(1, 0, TRUE, "icmp", Extra(3)), Pkt(11, 0, FALSE, "icmp", Extra(1)), Pkt(12, 0, TRUE, "udp", Extra(0)),
+                Pkt(11, 0, FALSE, "tcp", Extra(2))>>
+CutDgram(pi, k) == LET pk == CutPackets[pi]
+                       rec == [RawRec(pk) EXCEPT !.hdr = SubSeq(pk.o, 1, k)] IN
+                   Encode([agent |-> A4a, sub |-> W(1), seq |-> W(2), up |-> W(3), samples |-> <<FlowS(1, <<SwitchRecA, rec>>), Sample("c_vlan")>>])
 SkSeq == CHOOSE q \in [1..Cardinality(Skeletons) -> Skeletons] : \A a, c \in 1..Cardinality(Skeletons) : a # c => q[a] # q[c]
 
 (* the mutation site is chosen in the initial state (cheap), the value in the step: TLC then *)
 (* spreads the decodes over its workers                                                      *)
 VARIABLES sk, off, kind, filt, dgram
 fvars == <<sk, off, kind, filt, dgram>>
-FInit == /\ sk \in 1..Cardinality(Skeletons) /\ kind \in {"word", "octet", "cut"} /\ filt \in {{}, {1}}
-         /\ off \in 0..(Len(SkSeq[sk]) + 1)
+FInit == /\ \/ /\ sk \in 1..Cardinality(Skeletons) /\ kind \in {"word", "octet", "cut"}
+               /\ off \in 0..(Len(SkSeq[sk]) + 1)
+            \/ /\ kind = "pktcut" /\ sk \in 1..Len(CutPackets) /\ off \in 0..Len(CutPackets[sk].o)
+         /\ filt \in {{}, {1}}
          /\ (kind = "word" => off % 4 = 0 /\ off + 4 <= Len(SkSeq[sk]))
          /\ (kind = "octet" => off < Len(SkSeq[sk]))
          /\ dgram = <<>>
          /\ samples = <<>> /\ agent6 = FALSE            \* (SFlowGen's own variables: unused here)
 Fire == /\ dgram = <<>>
-        /\ LET m == SkSeq[sk] IN
-           CASE kind = "word" -> \E w \in Words(0, Len(m) - off - 4) : dgram' = PutW(m, off, w)
+        /\ LET m == IF kind = "pktcut" THEN <<>> ELSE SkSeq[sk] IN
+           CASE kind = "pktcut" -> dgram' = CutDgram(sk, off)
+             [] kind = "word" -> \E w \in Words(0, Len(m) - off - 4) : dgram' = PutW(m, off, w)
              [] kind = "octet" -> \E v \in Bytes8 : dgram' = Put8(m, off, v)
              [] OTHER -> dgram' = IF off <= Len(m) THEN SubSeq(m, 1, off) ELSE m \o <<0, 0, 0, 1, 0, 0, 0, 0>>
         /\ UNCHANGED <<sk, off, kind, filt, samples, agent6>>
